@@ -292,7 +292,13 @@ class StepSem:
                 return "ID"
             return self.raw_new(t)
         if isinstance(t, Sym) and t.head == "binop:Add" and len(t.args) == 2:
-            return self.sem(t.args[0]) + " >> " + self.sem(t.args[1])
+            # (the empty pipeline is the identity of ``+`` — what R-PI shows for Pipeline.__add__ — so it drops out of a chain)
+            l_, r_ = self.sem(t.args[0]), self.sem(t.args[1])
+            if l_ == "ID":
+                return r_
+            if r_ == "ID":
+                return l_
+            return l_ + " >> " + r_
         if isinstance(t, Fn):
             if t.kind == "lambda":
                 params = [a.arg for a in t.node.args.posonlyargs + t.node.args.args]
